@@ -237,6 +237,9 @@ def portfolio(gb, q, work, logdir):
     t0 = time.time()
     env = dict(os.environ)
     env['PATH'] = os.path.join(HERE, 'shim') + ':' + env.get('PATH', '')
+    # CBMC writes the CNF for an external SAT solver to $TMPDIR and a killed loser of the portfolio leaves it behind: keep it in the work dir
+    env['TMPDIR'] = os.path.join(work, 'tmp')
+    os.makedirs(env['TMPDIR'], exist_ok=True)
     base = ['cbmc', gb, '--function', q.entry, '--unwind', str(q.unwind), '--unwinding-assertions',
             '--no-malloc-may-fail', '--drop-unused-functions', '--trace']
     if q.unwindset:
